@@ -27,8 +27,11 @@ func walkNode(node *lisp.LVal, parent *lisp.LVal, depth int, fn func(*lisp.LVal,
 	// Don't recurse into quasiquote bodies — they are code-generation
 	// templates where forms like (defun (unquote name) ...) are data,
 	// not actual function definitions or calls.
+	// The language package's qualified spelling names the same operator:
+	// (lisp:quasiquote (car)) is a template exactly as (quasiquote (car)) is.
 	if node.Type == lisp.LSExpr && len(node.Cells) > 0 &&
-		node.Cells[0].Type == lisp.LSymbol && node.Cells[0].Str == "quasiquote" {
+		node.Cells[0].Type == lisp.LSymbol &&
+		(node.Cells[0].Str == "quasiquote" || node.Cells[0].Str == lisp.DefaultLangPackage+":quasiquote") {
 		return
 	}
 	for _, child := range node.Cells {
